@@ -1,6 +1,6 @@
 //! C07: Analyze/Synthesize<Rat,N> with arbitrary kernels, and the kernels held by the compiled
 //! Daubechies presets (f32 and f64, orders 2..20).
-use crate::props::conv::f64_exact;
+use crate::util::f64_exact;
 use crate::rat::Rat;
 use crate::util::*;
 use signalo_filters::convolve::Config as CC;
@@ -12,8 +12,8 @@ pub const HEADER: &str = "From Signalo Require Import Check.Common Check.C07.";
 pub fn generate(tier: &str, rng: &mut Rng) -> Vec<Spec> {
     let t = tier == "thorough"; let mut v = vec![];
     let ks = [Rat::int(-1), Rat::int(0), Rat::int(2)];
-    for n in 1..=2usize { for la in super::all_seqs(&ks, n) { for ha in super::all_seqs(&ks, n) {
-        for (i, xs) in super::all_seqs(&[Rat::int(-1), Rat::int(1), Rat::int(3)], if t { 5 } else { 4 }).into_iter().enumerate() {
+    for n in 1..=2usize { for la in crate::util::all_seqs(&ks, n) { for ha in crate::util::all_seqs(&ks, n) {
+        for (i, xs) in crate::util::all_seqs(&[Rat::int(-1), Rat::int(1), Rat::int(3)], if t { 5 } else { 4 }).into_iter().enumerate() {
             let ls: Vec<Rat> = la.iter().rev().cloned().collect(); let hs: Vec<Rat> = if i % 2 == 0 { ha.iter().rev().cloned().collect() } else { ha.clone() };
             if !t && n == 2 && i % 3 != 0 { continue; }
             v.push(Spec::new("wav").with("N", n).with("la", join_rats(&la)).with("ha", join_rats(&ha)).with("ls", join_rats(&ls)).with("hs", join_rats(&hs)).with("xs", join_rats(&xs)));
